@@ -19,19 +19,18 @@
    restrict_guarantee before a tick, (D) CR LF between two ticks.  `known_difference s` is the boolean
    that delimits these four.  The corrected statement
        forall s, in_quantifier s = true -> known_difference s = false -> lexemes_lang s = lexemes_syn s
-   is proved
-     * for ALL inputs without a CR byte (C18_lexemes_agree_partial; `no_cr s = true` is the one arm left open:
-       line breaks written CR or CR LF, where vhdl_lang lexes the normalised text), through the common
-       step-wise characterisation: each lexer realises split_spec when clean (C18_lang_is_spec,
-       C18_syn_is_spec, both for all inputs, proved arm by arm);
-     * for all strings up to a stated length over a 24-symbol alphabet that includes CR
-       (C18_lexemes_agree_bounded; length 4 in the thorough tier: Props/C18Sweep.v).
+   is PROVED FOR ALL INPUTS (C18_lexemes_agree), through the common step-wise characterisation: each lexer
+   realises split_spec when clean (C18_lang_is_spec_eol over the reader model of vhdl_lang, C18_syn_is_spec_eol
+   over the tokenizer + merge model of vhdl_syntax; a line break inside a lexeme reads as LF), proved arm by arm;
+   C18_lexemes_are_spec adds that the common value is what the LRM grammar prescribes.  The finite-domain theorem
+   (C18_lexemes_agree_bounded; length 4 in the thorough tier: Props/C18Sweep.v) is kept as an independent
+   evaluation of both executable models.
    The second clause (both parsers accept LRM-valid sources, the tree validates) has no theorem: it is
    explored by checks/c18.py on the bundled libraries and generated programs. *)
 From Coq Require Import List NArith Arith Bool.
 Import ListNotations.
 From RH Require Lex.LangLexer Lex.SynLexer.
-From RH Require Import Lex.LexGrammar Lex.Agree Lex.AgreeSweep Lex.AgreeSyn Lex.AgreeSynEol Lex.AgreeLang Lex.AgreeProofs.
+From RH Require Import Lex.LexGrammar Lex.Agree Lex.AgreeSweep Lex.AgreeSyn Lex.AgreeSynEol Lex.AgreeLang Lex.AgreeLangEol Lex.AgreeProofs.
 Open Scope N_scope.
 
 (* ---------- finite domain: every string of length <= 3 over ALPHA (14 425 inputs), by vm_compute ---------- *)
@@ -104,31 +103,47 @@ Check C18_lang_is_spec : forall s : list N,
   lexemes_lang s = split_spec LangLexer.keywords_2008 s.
 Print Assumptions C18_lang_is_spec.
 
-(* LEXEME AGREEMENT for unbounded inputs.
-   FULL statement:  forall s, in_quantifier s = true -> known_difference s = false -> lexemes_lang s = lexemes_syn s.
-   Proved here with the one further restriction `no_cr s = true` (inputs whose line breaks are LF); inputs with
-   CR / CR LF are covered by the bounded theorems (CR is in ALPHA) and by the differential run of the check. *)
-Theorem C18_lexemes_agree_partial : forall s,
-  in_quantifier s = true -> known_difference s = false -> no_cr s = true ->
-  lexemes_lang s = lexemes_syn s.
-Proof. exact lexemes_agree_no_cr. Qed.
-Check C18_lexemes_agree_partial : forall s,
-  in_quantifier s = true -> known_difference s = false -> no_cr s = true ->
-  lexemes_lang s = lexemes_syn s.
-Print Assumptions C18_lexemes_agree_partial.
+(* the same for inputs that may hold CR: vhdl_lang lexes the normalised text (Contents::from_str), so a CR or
+   CR LF inside a lexeme reads as LF; tick CR LF tick (difference D) is excluded *)
+Theorem C18_lang_is_spec_eol : forall s : list N,
+  latin1 s = true -> clean_lang s = true -> no_directive s = true -> no_pragma s = true ->
+  has_colon_literal s = false -> has_crlf_char s = false ->
+  lexemes_lang s = option_map (map norm_eol) (split_spec LangLexer.keywords_2008 s).
+Proof. exact lang_is_spec_eol. Qed.
+Print Assumptions C18_lang_is_spec_eol.
+(* the reference splitter commutes with line-break normalisation (a fact about the grammar alone) *)
+Theorem C18_split_spec_normalisation : forall kws s, has_crlf_char s = false ->
+  split_spec kws (norm_eol s) = option_map (map norm_eol) (split_spec kws s).
+Proof. exact split_spec_ne. Qed.
+Print Assumptions C18_split_spec_normalisation.
+
+(* LEXEME AGREEMENT — the property's first clause with the four differences of today's code excluded:
+   for every Latin-1 source that is lexically clean for both front ends and holds neither a tool directive nor
+   a `vhdl_ls` pragma, the two front ends split it into the same sequence of lexemes (bit strings merged). *)
+Theorem C18_lexemes_agree : forall s,
+  in_quantifier s = true -> known_difference s = false -> lexemes_lang s = lexemes_syn s.
+Proof. exact lexemes_agree. Qed.
+Check C18_lexemes_agree : forall s,
+  in_quantifier s = true -> known_difference s = false -> lexemes_lang s = lexemes_syn s.
+Print Assumptions C18_lexemes_agree.
 (* and the common value is what the LRM grammar prescribes *)
 Theorem C18_lexemes_are_spec : forall s,
-  in_quantifier s = true -> known_difference s = false -> no_cr s = true ->
-  exists l, split_spec LangLexer.keywords_2008 s = Some l /\ lexemes_lang s = Some l /\ lexemes_syn s = Some l.
-Proof. exact lexemes_are_spec. Qed.
+  in_quantifier s = true -> known_difference s = false ->
+  exists l, split_spec LangLexer.keywords_2008 s = Some l
+            /\ lexemes_lang s = Some (map norm_eol l) /\ lexemes_syn s = Some (map norm_eol l).
+Proof. exact lexemes_are_spec_eol. Qed.
 Print Assumptions C18_lexemes_are_spec.
-(* the hypotheses are satisfiable: a 22-lexeme text with a based real literal, bit strings with and without
-   length, character literal, attribute tick, both comment forms, extended identifier, doubled quote,
-   matching operator and `all` before a tick *)
+(* the hypotheses are satisfiable: a 22-lexeme LF text (based real literal, bit strings with and without length,
+   character literal, attribute tick, both comment forms, extended identifier, doubled quote, matching operator,
+   `all` before a tick) and a 15-lexeme text whose line breaks are CR, CR LF and LF *)
 Example C18_lexemes_agree_example : in_quantifier ex_both = true /\ known_difference ex_both = false
   /\ no_cr ex_both = true /\ length (match lexemes_lang ex_both with Some l => l | None => [] end) = 22%nat.
 Proof. exact ex_both_ok. Qed.
 Print Assumptions C18_lexemes_agree_example.
+Example C18_lexemes_agree_example_eol : in_quantifier ex_eol = true /\ known_difference ex_eol = false
+  /\ no_cr ex_eol = false /\ length (match lexemes_lang ex_eol with Some l => l | None => [] end) = 15%nat.
+Proof. exact ex_eol_ok. Qed.
+Print Assumptions C18_lexemes_agree_example_eol.
 
 (* ---------- F13: the tokenizer of vhdl_syntax before commit 5ee4d03 ---------- *)
 (* `1:= ` (from `range 0 to 1:= 1`, legal VHDL): clean for vhdl_lang, which splits `1` `:=`; the old
